@@ -24,6 +24,7 @@ from easynetwork.lowlevel.api_sync.transports.socket import SocketStreamTranspor
 from easynetwork.protocol import BufferedStreamProtocol, StreamProtocol
 from easynetwork.serializers import StringLineSerializer
 
+from vlib import netutil  # noqa: E402
 from vlib import gen, sockmon, tlspeer, vloop, vselect
 from vlib.runner import HangDetected, cpu_guard
 
@@ -63,15 +64,8 @@ KNOWN_KEY = "recv_into-cancel-same-iteration"
 
 
 def _tcp_pair():
-    srv = socket.socket(socket.AF_INET, socket.SOCK_STREAM)
-    srv.bind(("127.0.0.1", 0))
-    srv.listen(1)
-    c = socket.socket(socket.AF_INET, socket.SOCK_STREAM)
-    c.connect(srv.getsockname())
-    s, _ = srv.accept()
-    srv.close()
+    c, s = netutil.tcp_pair()
     for x in (c, s):
-        x.setsockopt(socket.IPPROTO_TCP, socket.TCP_NODELAY, 1)
         x.setblocking(False)
     return c, s
 
